@@ -112,14 +112,17 @@ class NativeK(KBase):
         except IndexError:
             pass
 
-    def cell(self, shape, name="c"):
+    def cell(self, shape, name="c", margin=0):
         self._n += 1
         c = []
         for a, n in enumerate(shape):
             key = f"{name}{self._n}_{a}"
             v = self.model.get(key)
             if v is None:
-                v = int(self.rng.integers(0, int(n)))
+                if int(n) - margin <= margin:
+                    self.clauses.append(("requires", None, "grid too small for an interior cell"))
+                    raise _PreconditionUnmet()
+                v = int(self.rng.integers(margin, int(n) - margin))
             self.ints[key] = int(v)
             c.append(int(v))
         # model cells that mention this Skolem cell
@@ -170,6 +173,9 @@ class NativeK(KBase):
         lhs, rhs = float(lhs), float(rhs)
         ok = abs(lhs - rhs) <= self.tol * (1.0 + abs(lhs) + abs(rhs)) or (math.isnan(lhs) and math.isnan(rhs))
         self.clauses.append((self._name(clause), ok, f"observed {lhs!r} expected {rhs!r}"))
+
+    def signature(self, clause, lhs, rhs, when=True, props=None):
+        pass
 
     def unchanged(self, clause, arr, props=None):
         ok = np.array_equal(arr, self.saved[id(arr)], equal_nan=True)
